@@ -90,8 +90,12 @@ Explicit(x) ==
     [] x = "override" -> {Entry("build", "override", v, <<"xo">>) : v \in PathVars}
                          \cup {Entry("launch", "override", v, <<"xl">>) : v \in PathVars}
 
-\* starting environment: the variables unset, set, or set to the empty string
-C10Env0(has) == [v \in PathVars |-> CASE has = "set" -> Val(<<"/usr">>) [] has = "empty" -> Val(<<>>) [] OTHER -> Unset]
+\* starting environment: the variables unset, set, set to the empty string, or already starting with
+\* the very directory the layer is going to contribute ("self": it is prepended all the same)
+C10DirOf(var) == CASE var = "PATH" -> "bin" [] var \in {"LIBRARY_PATH", "LD_LIBRARY_PATH"} -> "lib"
+                   [] var = "CPATH" -> "include" [] OTHER -> "pkgconfig"
+C10Env0(has) == [v \in PathVars |-> CASE has = "set" -> Val(<<"/usr">>) [] has = "empty" -> Val(<<>>)
+                                       [] has = "self" -> Val(<<"@", C10DirOf(v), ":", "/usr">>) [] OTHER -> Unset]
 
 \* the property, per variable: prepended with ":" exactly when the directory counts
 C10Law(kinds, q, var, cur) ==
@@ -115,7 +119,7 @@ C10Vector(kinds, x, has) ==
    results |-> [q \in QueryScopes |-> Apply(Explicit(x), q, LayerPaths(kinds), C10Env0(has))]]
 
 C10Run(kindSet) ==
-  \A kinds \in [PathDirs -> kindSet], x \in {"none", "append", "override"}, has \in {"unset", "set", "empty"} :
+  \A kinds \in [PathDirs -> kindSet], x \in {"none", "append", "override"}, has \in {"unset", "set", "empty", "self"} :
     /\ C10Check(kinds, x, has)
     /\ (EmitTR => PrintT(<<"V10", ToJson(C10Vector(kinds, x, has))>>))
 
